@@ -26,7 +26,8 @@ RULE = (
     "candidate names and with foreign files. Oracle: every start gets a folder that did not exist before and is distinct; a "
     "content hash of everything that pre-existed is unchanged; every reported file exists and - for fits/npy - reads back "
     "bit-identical to the bucket of the run with the same label; reported files = buckets x formats x runs, no duplicates. "
-    "Non-trivial: >=2 starts with the same timestamp or a pre-existing colliding name; distinct by canonical JSON."
+    "Part 'legacy_exposure': pyxel.exposure_mode with 1..14 readouts and a save list over {pixel, signal, image} x {npy, fits, txt}: exactly one "
+    "auto-numbered file per bucket, format and readout, file <n> holding readout <n>. Non-trivial: >=2 starts with the same timestamp or a pre-existing colliding name; distinct by canonical JSON."
 )
 ASSUMPTIONS = ["jpg/jpeg are lossy: existence only", "threads (not processes) for concurrent starts in the quick tier; the clock is frozen by the harness, so 'same second' is constructed"]
 SHARDS = {"quick": 8, "thorough": 16}
@@ -290,11 +291,72 @@ def body_processes(case, rec):
             rec.check(float(np.load(p).ravel()[0]) == o["pixel"], "file_content_differs_from_bucket", f"{p}: {np.load(p).ravel()[0]} vs {o['pixel']}")
 
 
-PARTS = {"history": body, "processes": body_processes}
+# ------------------------------------------------------------------ the auto-numbered per-readout files of the older entry point
+@st.composite
+def legacy_cases(draw):
+    """pyxel.exposure_mode (deprecated but public): one file per readout, numbered by looking at what is already in the folder."""
+    buckets = draw(st.lists(st.sampled_from(["pixel", "signal", "image"]), min_size=1, max_size=2, unique=True))
+    save = [{f"detector.{b}.array": draw(st.lists(st.sampled_from(["npy", "fits", "txt"]), min_size=1, max_size=2, unique=True))} for b in buckets]
+    return {"steps": draw(st.one_of(st.integers(1, 9), st.integers(10, 14), st.sampled_from([10, 11, 12]))), "save": save,
+            "non_destructive": draw(st.booleans()), "bump": draw(st.sampled_from([1.0, 2.5]))}
+
+
+def _read_any(path):
+    if path.suffix == ".npy":
+        return np.load(path)
+    if path.suffix == ".fits":
+        from astropy.io import fits
+
+        return np.asarray(fits.getdata(path))
+    return np.loadtxt(path, ndmin=2, delimiter="|")  # pyxel writes ' | ' separated columns with 9 significant digits
+
+
+def body_legacy(case, rec):
+    import pyxel
+    from vprobes import models as P
+
+    P.reset()
+    n = case["steps"]
+    rec.cls(f"legacy:steps:{'<=9' if n <= 9 else '>=10'}", "legacy:nd" if case["non_destructive"] else "legacy:destructive")
+    rec.nt(n >= 2)
+    extra = {"charge_collection": [{"name": "mem", "func": "vprobes.models.memory", "enabled": True, "arguments": {"bump": case["bump"], "tag": "mem"}}]}
+    out = rec.tmp / "out"
+    spec = {"detector": simple_spec("CCD", row=2, col=3), "pipeline": echo_pipeline(extra), "mode": {"kind": "exposure"},
+            "readout": {"times": [float(i + 1) for i in range(n)]}, "non_destructive": case["non_destructive"],
+            "outputs": {"output_folder": str(out), "save_data_to_file": case["save"]}}
+    ds = None
+    with rec.must_not_raise("valid_outputs_refused"):
+        cfg = pyx.build(spec)
+        ds = pyxel.exposure_mode(exposure=cfg.mode, detector=cfg.detector, pipeline=cfg.pipeline)
+    if ds is None:
+        return
+    folders = [d for d in out.iterdir() if d.is_dir()]
+    if not rec.check(len(folders) == 1, "output_folder_count", f"{[d.name for d in folders]}"):
+        return
+    files = sorted(f.name for f in folders[0].iterdir() if f.suffix in (".npy", ".fits", ".txt"))
+    for item in case["save"]:
+        (key, fmts), = item.items()
+        b = key.split(".")[1]
+        for fm in fmts:
+            want = [f"detector_{b}_array_{i + 1}.{fm}" for i in range(n)]
+            have = [f for f in files if f.startswith(f"detector_{b}_array_") and f.endswith("." + fm)]
+            if not rec.check(sorted(have) == sorted(want), "files_missing_or_surplus", f"{b}/{fm}: {n} readouts, files {sorted(have)}"):
+                continue
+            for i in range(n):
+                rec.sub({"file": want[i]}, True)
+                got = np.asarray(_read_any(folders[0] / want[i]), dtype=float)
+                ref = np.asarray(ds[b].isel(readout_time=i).values, dtype=float)
+                ok = got.shape == ref.shape and (bool(np.array_equal(got, ref)) if fm != "txt" else bool(np.allclose(got, ref, rtol=1e-8, atol=0)))  # txt: 9 significant digits
+                if not rec.check(ok, "file_content_differs_from_bucket", f"{want[i]} holds {got.ravel()[:3]}, readout {i} of {b} is {ref.ravel()[:3]}"):
+                    break
+
+
+PARTS = {"history": body, "processes": body_processes, "legacy_exposure": body_legacy}
 
 
 def plan(tier):
-    parts = [Part(name="history", kind="gen", strategy=histories, examples=25 if tier == "quick" else 200)]
+    parts = [Part(name="history", kind="gen", strategy=histories, examples=25 if tier == "quick" else 200),
+             Part(name="legacy_exposure", kind="gen", strategy=legacy_cases, examples=16 if tier == "quick" else 120)]
     if tier == "thorough":
         parts.append(Part(name="processes", kind="enum", cases=process_cases, shards=3))
     return parts
